@@ -79,6 +79,22 @@ FAMILIES = {
 }
 
 
+# products of two nesting mechanisms: every level of a recursive construct carries a loop-built chain. No single level is deep,
+# the levels add up on the native stack (a guard that is re-based per sub-compiler / per construct shows only here).
+NEST = {"paren": ("(", ")"), "arrow": ("(x => ", ")"), "arrowblock": ("(() => { return ", "; })"), "fnexpr": ("(function () { return ", "; })"), "bracket": ("[", "]"),
+        "tmpl": ("`${", "}`"), "objlit": ("({a: ", "})"), "callarg": ("f(", ")"), "cond": ("(a ? ", " : 1)"), "classexpr": ("(class { m() { return ", "; } })"),
+        "asyncarrow": ("(async x => ", ")"), "unary": ("(!", ")"), "arrowdefault": ("((a = ", ") => 1)"), "generator": ("(function* () { yield ", "; })"), "getter": ("({get a() { return ", "; }})")}
+CHAIN = {"member": ".a", "call": "()", "index": "[0]", "tagged": "`t`", "nonnull": "!", "binleft": " + 1", "optchain": "?.a", "as": " as T"}
+
+
+def product(nest, chain, d, k):
+    pre, suf = NEST[nest]
+    e = "x"
+    for _ in range(d):
+        e = pre + e + CHAIN[chain] * k + suf
+    return "let f = %s;" % e
+
+
 def run(ctx):
     rng = ctx.rng
     budget_of = lambda s: 20000 + 40 * len(s) * min(len(s), 600)
@@ -88,12 +104,18 @@ def run(ctx):
         inputs.append(json.dumps({"src": src, "budget": budget_of(src), "stack_kb": 2048, "module": what.startswith("module")}, ensure_ascii=True))
         origin.append((what, src))
     # ---- (1) nesting / chain families at doubling sizes (also the polynomial check)
-    sizes = [16, 32, 64, 128, 1024, 8192, 200000] if ctx.tier != "quick" else [16, 32, 64, 4096, 100000]
+    sizes = [16, 32, 64, 128, 1024, 2000, 3990, 5000, 8192, 9990, 200000] if ctx.tier != "quick" else [16, 32, 64, 3990, 9990, 100000]
     fam_index = {}
     for name, f in FAMILIES.items():
         for k in sizes:
             fam_index[(name, k)] = len(inputs)
             add(f(k), "family %s k=%d" % (name, k))
+    # ---- (1b) products nest x chain
+    for nest in NEST:
+        for chain in CHAIN:
+            for d, k in ([(4, 150), (16, 100), (8, 1000), (16, 300), (32, 200), (64, 100), (12, 500), (4, 3990), (24, 9990)] if ctx.tier == "quick" else [(2, 150), (4, 120), (4, 150), (6, 100), (8, 60), (16, 100), (64, 30), (8, 1000), (3, 5000), (256, 8), (16, 300), (32, 200), (64, 100), (12, 500), (24, 250), (6, 700), (128, 50), (4, 3990), (24, 9990), (3, 3000), (40, 2000)]):
+                add(product(nest, chain, d, k), "product %s x %s d=%d k=%d" % (nest, chain, d, k))
+    n_stack_inputs = len(inputs)          # families and products: the inputs whose only risk is native stack use
     # ---- (2) skeleton correspondence inputs
     sk_cases = []
     for i in range(60 if ctx.tier == "quick" else 800):
@@ -162,6 +184,29 @@ def run(ctx):
         else:
             ctx.prop_fail("unclassified outcome %s" % g[:40], case)
 
+    # ---- the stack-bound inputs once more on an UNOPTIMISED build of tsrun (frames several times larger: what a host's debug
+    #      build or a `cargo test` thread sees), on a 1.75 MB thread
+    ok, log = common.harness_dbg_build()
+    if not ok:
+        ctx.corr_fail("the unoptimised harness build failed", {"log": log[-800:]}, "build", "failed")
+    else:
+        # 1.75 MB: a 2 MB thread ("threads commonly have 2 MB", src/parser.rs) of which the host has used 256 KB
+        small = [json.dumps(dict(json.loads(x), stack_kb=1792)) for x in inputs[:n_stack_inputs]]
+        got_dbg = common.harness_dbg(["parse"], small, timeout=1800, chunk=20)
+        hist["unoptimised_build"] = 0
+        for (what, src), g in zip(origin[:n_stack_inputs], got_dbg):
+            ctx.cov["evaluations"] += 1
+            hist["unoptimised_build"] += 1
+            case = {"origin": what + " (tsrun built without optimisation)", "source_len": len(src), "source": src[:1500], "impl": g[:200]}
+            if g.startswith("ACC") or g.startswith("REJ") or g.startswith("BUDGET"):
+                continue
+            if g.startswith("PANIC"):
+                ctx.prop_fail("panic: preparing the text panicked in an unoptimised build (%s)" % g[6:80], case)
+            elif g.startswith("CRASH") or g == "NOT-RUN":
+                ctx.prop_fail("abort: preparing the text killed the process in an unoptimised build (stack overflow / abort)", case)
+            elif g.startswith("TIMEOUT"):
+                ctx.prop_fail("hang: preparing the text did not return in an unoptimised build", case)
+
     def work(g):
         try:
             return int(g.rsplit("work=", 1)[1])
@@ -213,7 +258,7 @@ def run(ctx):
                 ctx.prop_fail("superquadratic: %d tokens of work for %d characters" % (w, len(render(sk, fam))), {"source": render(sk, fam)[:800]})
     ctx.cov["distinct_nontrivial"] = len(distinct)
     ctx.cov["worst_tokens_per_model_unit"] = {k: round(v, 2) for k, v in worst.items()}
-    ctx.cov["rule"] = ("%d nesting/chain families at sizes %s; random nesting skeletons rendered in 9 syntactic families (model cost vs measured lexer work, K_spec=%d, K_lin=%d); every 1/k-th prefix and random "
+    ctx.cov["rule"] = ("%d nesting/chain families at sizes %s; products of 15 recursive constructs x 8 loop-built chains (every level carries a chain); random nesting skeletons rendered in 9 syntactic families (model cost vs measured lexer work, K_spec=%d, K_lin=%d); every 1/k-th prefix and random "
                        "single-token mutations of generated/corpus/model-generated TypeScript programs; token soups over a %d-word vocabulary; random bytes as UTF-8 (lossy) and Latin-1; a corpus of "
                        "truncated constructs (script and module). Each input on a 2 MB thread with a work budget of 20000 + 40*len*min(len,600) tokens. distinct_nontrivial = distinct (outcome, class, origin)"
                        % (len(FAMILIES), sizes, K_SPEC, K_LIN, len(VOCAB)))
